@@ -247,9 +247,35 @@ static int has_trailing_nul_and_other_string(const names_t *N)
     return tn && (other || tn > 1);
 }
 
+/* nameType family for keys: combination name without the flag suffixes */
+static const char *family(int ci)
+{
+    static char f[16];
+    size_t k = strcspn(COMBO[ci].name, "+");
+    snprintf(f, sizeof(f), "%.*s", (int) (k < sizeof(f) - 1 ? k : sizeof(f) - 1), COMBO[ci].name);
+    return f;
+}
+
+/* loose glob: '*' matches any run of characters (dots included), the pattern may also stop early (prefix match) */
+static int loose_glob(const char *P, int pl, const char *E, int el)
+{
+    if (pl == 0) return 1;
+    if (P[0] == '*')
+    {
+        int k;
+        for (k = 0; k <= el; k++)
+        {
+            if (loose_glob(P + 1, pl - 1, E + k, el - k)) return 1;
+        }
+        return 0;
+    }
+    if (el == 0 || lc_((unsigned char) P[0]) != lc_((unsigned char) E[0])) return 0;
+    return loose_glob(P + 1, pl - 1, E + 1, el - 1);
+}
+
 static void diag_false_accept(const names_t *N, const char *E, int ci, char *out, size_t n)
 {
-    int type = COMBO[ci].type, i, el = (int) strlen(E);
+    int type = COMBO[ci].type, i, pass, el = (int) strlen(E);
     unsigned mflags = COMBO[ci].mflags;
     int cn_ok = type == NAME_TYPE_ANY || type == NAME_TYPE_HOSTNAME || type == NAME_TYPE_CN;
     /* known loose-matching patterns on an eligible name */
@@ -297,20 +323,45 @@ static void diag_false_accept(const names_t *N, const char *E, int ci, char *out
         snprintf(out, n, "wildcard-empty-label");
         return;
     }
-    /* a name that matches by the rule of its kind but is not eligible for this nameType / flags */
-    for (i = 0; i < N->n; i++)
+    /* the CN matches (strictly, or with an empty wildcard label) although it must not be consulted */
+    if (CNS[N->cn].len > 0 && !cn_malformed(&CNS[N->cn]) && cn_eligibility(N, type, mflags) == 0 &&
+        (cn_rule(&CNS[N->cn], E) || (CNS[N->cn].len >= 3 && CNS[N->cn].b[0] == '*' && CNS[N->cn].b[1] == '.' && ieqn(CNS[N->cn].b + 1, CNS[N->cn].len - 1, E, el))))
     {
-        const sanent_t *e = &POOL[N->idx[i]];
-        if (!kind_eligible(e->kind, type) && ent_rule(e, E, mflags | MF_CI))
+        snprintf(out, n, "ineligible-cn-matched|t=%s", family(ci));
+        return;
+    }
+    /* an eligible wildcard-bearing name that matches when '*' is read loosely: "*."-patterns first, then (after the
+       ineligible-SAN explanation) every other pattern */
+    for (pass = 0; pass < 2; pass++)
+    {
+        for (i = 0; i < N->n; i++)
         {
-            snprintf(out, n, "ineligible-%s-san-matched|t=%s", kind_name[e->kind], COMBO[ci].name);
+            const sanent_t *e = &POOL[N->idx[i]];
+            int len = e->len - ent_trailing_nul(e);
+            if ((pass == 0) != (len >= 2 && e->b[0] == '*' && e->b[1] == '.')) continue;
+            if (kind_eligible(e->kind, type) && e->kind == K_DNS && !ent_malformed(e) && memchr(e->b, '*', (size_t) len) && loose_glob(e->b, len, E, el))
+            {
+                snprintf(out, n, "wildcard-overmatch|san=%s", e->tag);
+                return;
+            }
+        }
+        if (pass == 0 && cn_ok && CNS[N->cn].len > 0 && !cn_malformed(&CNS[N->cn]) && memchr(CNS[N->cn].b, '*', (size_t) CNS[N->cn].len) &&
+            cn_eligibility(N, type, mflags) && loose_glob(CNS[N->cn].b, CNS[N->cn].len, E, el))
+        {
+            snprintf(out, n, "wildcard-overmatch|san=%s", CNS[N->cn].tag);
             return;
         }
-    }
-    if (cn_rule(&CNS[N->cn], E) && cn_eligibility(N, type, mflags) != 1)
-    {
-        snprintf(out, n, "ineligible-cn-matched|t=%s", COMBO[ci].name);
-        return;
+        if (pass == 1) break;
+        /* a SAN entry that matches by the rule of its kind but is not eligible for this nameType */
+        for (i = 0; i < N->n; i++)
+        {
+            const sanent_t *e = &POOL[N->idx[i]];
+            if (!kind_eligible(e->kind, type) && ent_rule(e, E, mflags | MF_CI))
+            {
+                snprintf(out, n, "ineligible-%s-san-matched|t=%s", kind_name[e->kind], family(ci));
+                return;
+            }
+        }
     }
     /* an e-mail entry that matches only when the local part is compared case-insensitively */
     for (i = 0; i < N->n; i++)
@@ -322,22 +373,7 @@ static void diag_false_accept(const names_t *N, const char *E, int ci, char *out
             return;
         }
     }
-    /* a wildcard-bearing name is the most likely culprit */
-    for (i = 0; i < N->n; i++)
-    {
-        const sanent_t *e = &POOL[N->idx[i]];
-        if (kind_eligible(e->kind, type) && e->kind == K_DNS && memchr(e->b, '*', (size_t) e->len))
-        {
-            snprintf(out, n, "wildcard-overmatch|san=%s", e->tag);
-            return;
-        }
-    }
-    if (cn_ok && CNS[N->cn].len > 0 && memchr(CNS[N->cn].b, '*', (size_t) CNS[N->cn].len) && cn_eligibility(N, type, mflags))
-    {
-        snprintf(out, n, "wildcard-overmatch|san=%s", CNS[N->cn].tag);
-        return;
-    }
-    snprintf(out, n, "unexplained|t=%s", COMBO[ci].name);
+    snprintf(out, n, "unexplained|t=%s", family(ci));
 }
 
 static void diag_false_reject(const names_t *N, const char *E, int ci, int parsed, int witness, char *out, size_t n)
@@ -366,10 +402,10 @@ static void diag_false_reject(const names_t *N, const char *E, int ci, int parse
             snprintf(out, n, "san-entry-after-trailing-nul-entry");
             return;
         }
-        snprintf(out, n, "witness=%s|pos=%s|t=%s", e->tag, witness == 0 ? "first" : "later", COMBO[ci].name);
+        snprintf(out, n, "witness=%s-san|pos=%s", kind_name[e->kind], witness == 0 ? "first" : "later");
         return;
     }
-    snprintf(out, n, "witness=%s|t=%s", witness == -2 ? CNS[N->cn].tag : "none", COMBO[ci].name);
+    snprintf(out, n, "witness=%s|t=%s", witness == -2 ? "cn" : "none", family(ci));
 }
 
 #endif
